@@ -281,17 +281,21 @@ def correspondence(ctx: Ctx):
                     out = mod({"kspace": torch.zeros(shape)})["sensitivity_map"]
                     return ok_rats(shape, out) if list(out.shape) == shape else "err Shape"
                 yield {"line": pline("unit", shape), "impl": _impl(run), "nontrivial": c >= 2, "bucket": f"unit/c={c}"}
-    # ---- safe_divide itself
+    # ---- safe_divide itself; the first cases are fixed: NON-zero numerators over zero divisors (result must be 0, not the numerator)
+    fixed = [([1, -2, 5, 7], [0, 0, 0, 0]), ([3, 0, -4, 9, 1], [0, 2, 0, -3, 0]), ([1], [0])]
     for i in range(ctx.budget(40, 400)):
         n = rng.randint(1, 12)
-        a = [rng.randint(-9, 9) for _ in range(n)]
+        a = [rng.choice([-9, -3, -1, 1, 2, 5, 9, rng.randint(-9, 9)]) for _ in range(n)]
         d = [rng.choice([0, 0, 1, -1, 2, 3, -4, 5, 8, -16]) for _ in range(n)]
+        if i < len(fixed):
+            a, d = fixed[i]
 
         def run(a=a, d=d):
             out = T.safe_divide(torch.tensor(a, dtype=torch.float32), torch.tensor(d, dtype=torch.float32))
             return "ok " + ints(rat_pairs(out))
-        yield {"line": pline("safediv", a, d), "impl": _impl(run), "nontrivial": 0 in d and any(x != 0 for x in d),
-               "bucket": "safe_divide/" + ("zero-divisor" if 0 in d else "nonzero")}
+        nz_over_zero = any(x != 0 and y == 0 for x, y in zip(a, d))
+        yield {"line": pline("safediv", a, d), "impl": _impl(run), "nontrivial": 0 in d,
+               "bucket": "safe_divide/" + ("nonzero-numerator-over-zero" if nz_over_zero else "zero-divisor" if 0 in d else "nonzero")}
 
 
 # --------------------------------------------------------------------------------------------------
